@@ -8,6 +8,9 @@ Section Main.
   Variables (c : cfg) (mi : Z -> list Z).
   Hypothesis W : WF c mi.
 
+  Let HlB : lB c = cB c := lB_eq c mi W.
+  Let Hlspe : lspe c = spe c := lspe_eq c mi W.
+
   (* one batch: b is consumed, the last index closes the update *)
   Lemma epoch_loop_batch : forall b rest sie s sample' sie',
     b <> [] -> 0 <= siu s -> siu s + len b <= cB c -> sie + len b <= spe c ->
@@ -17,31 +20,32 @@ Section Main.
       let epoch_end := sie' =? spe c in
       let epoch' := if epoch_end then epoch s + 1 else epoch s in
       let update' := update s + 1 in
-      let passes := sides_pass c 0 (offsets c) (sides c) epoch_end epoch' update' sample' (salu s) in
-      let s' := {| epoch := epoch'; update := update'; sample := sample'; siu := 0; salu := sample' |} in
-      if budget_reached c epoch' update' sample' then (emit Main b ++ passes, s', Done)
-      else if epoch_end then (emit Main b ++ passes, s', EpochBreak)
-      else let '(evs, s'', stt) := epoch_loop c rest sie' s' in (emit Main b ++ passes ++ evs, s'', stt).
+      let pp := sides_pass c 0 (offsets c) (sides c) (pcs s) epoch_end epoch' update' sample' (salu s) in
+      let s' := {| epoch := epoch'; update := update'; sample := sample'; siu := 0; salu := sample'; pcs := snd pp |} in
+      if budget_reached c epoch' update' sample' then (emit Main b ++ fst pp, s', Done)
+      else if epoch_end then (emit Main b ++ fst pp, s', EpochBreak)
+      else let '(evs, s'', stt) := epoch_loop c rest sie' s' in (emit Main b ++ fst pp ++ evs, s'', stt).
   Proof.
     induction b as [|i b IH]; intros rest sie s sample' sie' Hne Hq Hle Hle2 Hclose Hs Hsie; [congruence|].
     destruct b as [|j b].
     - rewrite len_cons, len_nil in *.
       assert (sample' = sample s + 1) as -> by lia. assert (sie' = sie + 1) as -> by lia.
-      cbn [app epoch_loop].
+      cbn [app epoch_loop]. rewrite HlB, Hlspe.
       assert ((siu s + 1 =? cB c) || (sie + 1 =? spe c) = true) as ->.
       { apply orb_true_iff. destruct Hclose; [left|right]; apply Z.eqb_eq; lia. }
       cbv zeta. cbn [emit app].
+      destruct (sides_pass c 0 (offsets c) (sides c) (pcs s) _ _ _ _ _) as [passes pcs']. cbn [fst snd].
       destruct (budget_reached c _ _ _); [reflexivity|].
       destruct (sie + 1 =? spe c); [reflexivity|].
       destruct (epoch_loop c rest (sie + 1) _) as [[evs s''] stt]. reflexivity.
     - rewrite len_cons in *. pose proof (len_nonneg (j :: b)) as Hnn.
       change ((i :: j :: b) ++ rest) with (i :: ((j :: b) ++ rest)).
-      cbn [epoch_loop].
+      cbn [epoch_loop]. rewrite HlB, Hlspe.
       assert ((siu s + 1 =? cB c) || (sie + 1 =? spe c) = false) as ->.
       { rewrite len_cons in *. pose proof (len_nonneg b).
         apply orb_false_iff. split; apply Z.eqb_neq; lia. }
       cbv zeta. rewrite (len_cons j b) in *.
-      rewrite (IH rest (sie + 1) _ sample' sie'); cbn [siu sample epoch update salu];
+      rewrite (IH rest (sie + 1) _ sample' sie'); cbn [siu sample epoch update salu pcs];
         try lia; try discriminate.
       cbv zeta. rewrite emit_cons2.
       destruct (budget_reached c _ _ _); [reflexivity|].
@@ -49,9 +53,37 @@ Section Main.
       destruct (epoch_loop c rest sie' _) as [[evs s''] stt]. reflexivity.
   Qed.
 
-  Definition at_pos (s : st) (e : Z) (j : nat) (pre : list (list Z)) : Prop :=
+  Definition at_pos (s : st) (e : Z) (j : nat) (pre : list (list Z)) (pnj : list nat) : Prop :=
     epoch s = e /\ update s = e * upe c + Z.of_nat j /\ sample s = e * spe c + len (concat pre)
-    /\ siu s = 0 /\ salu s = sample s.
+    /\ siu s = 0 /\ salu s = sample s /\ pcs s = pnj.
+
+  (* one more update: every config that was due consumed one iteration *)
+  Lemma due_count_S sc e bs j :
+    due_count c sc e bs (S j) = (due_count c sc e bs j + (if due sc (counters_at c e bs j) then 1 else 0))%nat.
+  Proof.
+    unfold due_count. rewrite seq_S, filter_app, app_length. cbn [filter plus].
+    destruct (due sc (counters_at c e bs j)); reflexivity.
+  Qed.
+
+  Lemma bump_pn_at e bs j : forall l pn,
+    bump l (pn_at_from c l pn e bs j) (counters_at c e bs j) = pn_at_from c l pn e bs (S j).
+  Proof.
+    induction l as [|sc l IH]; intros pn; [reflexivity|]. destruct pn as [|p pn]; [reflexivity|].
+    cbn [pn_at_from bump]. rewrite IH, due_count_S. f_equal.
+    destruct (due sc (counters_at c e bs j)); lia.
+  Qed.
+
+  Lemma pn_at_0 e bs : forall l pn, length pn = length l -> pn_at_from c l pn e bs 0 = pn.
+  Proof.
+    induction l as [|sc l IH]; intros pn Hl; destruct pn as [|p pn]; try discriminate; [reflexivity|].
+    cbn [pn_at_from]. rewrite IH by (simpl in Hl; lia). unfold due_count. cbn. f_equal. lia.
+  Qed.
+
+  Lemma pn_at_length e bs j : forall l pn, length pn = length l -> length (pn_at_from c l pn e bs j) = length l.
+  Proof.
+    induction l as [|sc l IH]; intros pn Hl; destruct pn as [|p pn]; try discriminate; [reflexivity|].
+    cbn [pn_at_from length]. rewrite IH by (simpl in Hl; lia). reflexivity.
+  Qed.
 
   Definition is_nil {A} (l : list A) : bool := match l with [] => true | _ => false end.
 
@@ -98,21 +130,21 @@ Section Main.
     destruct x; [congruence|]. rewrite len_cons. pose proof (len_nonneg x). lia.
   Qed.
 
-  (* a whole epoch (from the j-th batch on) *)
-  Lemma epoch_loop_epoch e (bs : list (list Z)) :
+  (* a whole epoch (from the j-th batch on); pn = pass numbers at the epoch's start *)
+  Lemma epoch_loop_epoch e (bs : list (list Z)) (pn : list nat) :
     shape (Z.to_nat (cB c)) bs -> len (concat bs) = spe c -> Z.of_nat (length bs) = upe c ->
     forall rem pre tail s,
-    bs = pre ++ rem -> rem <> [] -> at_pos s e (length pre) pre ->
-    let r := take_until (hit c) (map (upd_at c e bs) (seq (length pre) (length rem))) in
+    bs = pre ++ rem -> rem <> [] -> at_pos s e (length pre) pre (pn_at c pn e bs (length pre)) ->
+    let r := take_until (hit c) (map (upd_at c e bs pn) (seq (length pre) (length rem))) in
     exists sfin,
       epoch_loop c (concat rem ++ tail) (len (concat pre)) s =
         (flat_map u_events (fst r), sfin, if snd r then Done else EpochBreak)
-      /\ (snd r = false -> at_pos sfin (e + 1) 0 []).
+      /\ (snd r = false -> at_pos sfin (e + 1) 0 [] (pn_at c pn e bs (length bs))).
   Proof.
     intros Hshape Hlen Hcount. pose proof (wf_B c mi W) as HB.
     induction rem as [|x rem' IH]; intros pre tail s Hbs Hne Hpos; [congruence|].
     clear Hne. cbv zeta.
-    destruct Hpos as (He & Hu & Hsa & Hsiu & Hsalu).
+    destruct Hpos as (He & Hu & Hsa & Hsiu & Hsalu & Hpcs).
     assert (Hsh : shape (Z.to_nat (cB c)) (x :: rem')).
     { apply (shape_app_r _ pre); [now rewrite <- Hbs|discriminate]. }
     apply shape_cons_inv in Hsh; [|lia]. destruct Hsh as (Hx & Hxle & Hxfull & Hsh').
@@ -140,10 +172,15 @@ Section Main.
     { rewrite Hke, Hkep, He. reflexivity. }
     replace (update s + 1) with (k_update k) by lia.
     replace (salu s) with (k_prev_sample k) by lia.
-    rewrite (sides_pass_spec c mi W k) by lia.
+    rewrite Hpcs.
+    rewrite (sides_pass_spec c mi W k) by lia. cbn [fst snd].
+    assert (Hbump : bump (sides c) (pn_at c pn e bs (length pre)) k = pn_at c pn e bs (S (length pre)))
+      by (unfold pn_at; apply bump_pn_at).
+    rewrite Hbump.
     cbn [length seq map take_until].
-    assert (Hhit : hit c (upd_at c e bs (length pre)) = budget_reached c (k_epoch k) (k_update k) (k_sample k)) by reflexivity.
-    assert (Hev : u_events (upd_at c e bs (length pre)) = emit Main x ++ passes_from c 0 (sides c) k).
+    assert (Hhit : hit c (upd_at c e bs pn (length pre)) = budget_reached c (k_epoch k) (k_update k) (k_sample k)) by reflexivity.
+    assert (Hev : u_events (upd_at c e bs pn (length pre))
+                  = emit Main x ++ passes_from c 0 (sides c) (pn_at c pn e bs (length pre)) k).
     { unfold upd_at. cbn [u_events]. fold k. rewrite Hbs, nth_app_exact. reflexivity. }
     rewrite Hhit.
     destruct (budget_reached c (k_epoch k) (k_update k) (k_sample k)) eqn:Hb.
@@ -151,68 +188,88 @@ Section Main.
     - destruct rem' as [|y r].
       + rewrite Hke. cbn [is_nil length seq map take_until fst snd flat_map].
         eexists. rewrite Hev, app_nil_r. split; [reflexivity|]. intros _.
-        unfold at_pos. cbn [epoch update sample siu salu concat].
+        unfold at_pos. cbn [epoch update sample siu salu pcs concat].
         rewrite Hkep. cbn [is_nil]. rewrite len_nil.
         assert (Z.of_nat (length bs) = Z.of_nat (length pre) + 1) as Hl.
         { rewrite Hbs, app_length. simpl length. lia. }
         cbn [concat] in Htot. rewrite len_nil in Htot.
+        assert (length bs = S (length pre)) as -> by lia.
         repeat split; try lia; nia.
       + rewrite Hke. cbn [is_nil].
         specialize (IH (pre ++ [x]) tail
-                       {| epoch := k_epoch k; update := k_update k; sample := k_sample k; siu := 0; salu := k_sample k |}).
+                       {| epoch := k_epoch k; update := k_update k; sample := k_sample k; siu := 0; salu := k_sample k;
+                          pcs := pn_at c pn e bs (S (length pre)) |}).
         rewrite app_length in IH. simpl length in IH. rewrite Nat.add_1_r in IH.
         rewrite concat_app in IH. cbn [concat] in IH. rewrite app_nil_r, len_app in IH.
         destruct IH as [sfin [Heq Hfin]].
         * rewrite <- app_assoc. exact Hbs.
         * discriminate.
-        * unfold at_pos. cbn [epoch update sample siu salu]. rewrite Hkep. cbn [is_nil].
+        * unfold at_pos. cbn [epoch update sample siu salu pcs]. rewrite Hkep. cbn [is_nil].
           rewrite concat_app, len_app. cbn [concat]. rewrite app_nil_r.
           repeat split; lia.
         * cbv zeta in Heq, Hfin. cbn [concat]. rewrite Heq.
           cbn [length] in *.
-          destruct (take_until (hit c) (map (upd_at c e bs) (seq (S (length pre)) (S (length r))))) as [us found].
+          destruct (take_until (hit c) (map (upd_at c e bs pn) (seq (S (length pre)) (S (length r))))) as [us found].
           cbn [fst snd] in *. exists sfin. cbn [flat_map]. rewrite Hev, <- app_assoc.
           split; [reflexivity|exact Hfin].
   Qed.
 
-  Lemma epoch_step e s : at_pos s e 0 [] ->
+  (* whether an epoch stops the run depends on the counters only *)
+  Lemma snd_take_until_updates e bs pn : forall l,
+    snd (take_until (hit c) (map (upd_at c e bs pn) l)) = existsb (fun j => hit_k c (counters_at c e bs j)) l.
+  Proof.
+    induction l as [|j l IH]; [reflexivity|]. cbn [map take_until existsb].
+    change (hit c (upd_at c e bs pn j)) with (hit_k c (counters_at c e bs j)).
+    destruct (hit_k c (counters_at c e bs j)); [reflexivity|].
+    destruct (take_until (hit c) (map (upd_at c e bs pn) l)). exact IH.
+  Qed.
+  Lemma epoch_hits_eq e pn : snd (take_until (hit c) (epoch_updates c mi e pn)) = epoch_hits c mi e.
+  Proof. unfold epoch_updates, epoch_hits. apply snd_take_until_updates. Qed.
+
+  Lemma epoch_step e pn s : length pn = length (sides c) -> at_pos s e 0 [] pn ->
     exists sfin,
       epoch_loop c (mi e) 0 s =
-        (flat_map u_events (fst (take_until (hit c) (epoch_updates c mi e))), sfin,
+        (flat_map u_events (fst (take_until (hit c) (epoch_updates c mi e pn))), sfin,
          if epoch_hits c mi e then Done else EpochBreak)
-      /\ (epoch_hits c mi e = false -> at_pos sfin (e + 1) 0 []).
+      /\ (epoch_hits c mi e = false -> at_pos sfin (e + 1) 0 [] (pn_next c mi e pn)).
   Proof.
-    intros Hpos. set (bs := epoch_batches c mi e).
+    intros Hpl Hpos. set (bs := epoch_batches c mi e).
     pose proof (epoch_batches_shape c mi W e) as Hsh.
     pose proof (epoch_batches_len c mi W e) as Hlen.
     pose proof (epoch_batches_count c mi W e) as Hcnt.
     pose proof (spe_range c mi W) as Hspe.
     assert (bs <> []) as Hne.
     { intro E. fold bs in Hlen. rewrite E in Hlen. cbn in Hlen. lia. }
-    destruct (epoch_loop_epoch e bs Hsh Hlen Hcnt bs [] (skipn (Z.to_nat (spe c)) (mi e)) s eq_refl Hne Hpos)
+    assert (at_pos s e (@length (list Z) []) [] (pn_at c pn e bs (@length (list Z) []))) as Hpos'.
+    { cbn [length]. unfold pn_at. rewrite pn_at_0 by exact Hpl. exact Hpos. }
+    destruct (epoch_loop_epoch e bs pn Hsh Hlen Hcnt bs [] (skipn (Z.to_nat (spe c)) (mi e)) s eq_refl Hne Hpos')
       as [sfin [Heq Hfin]].
     cbv zeta in Heq, Hfin. cbn [concat length] in Heq, Hfin. rewrite len_nil in Heq.
-    exists sfin. unfold epoch_hits, epoch_updates. fold bs.
+    exists sfin. rewrite <- (epoch_hits_eq e pn). unfold epoch_updates, pn_next. fold bs.
     rewrite (epoch_split c mi W e) at 1. fold bs. split; [exact Heq|exact Hfin].
   Qed.
 
+  Lemma pn_next_length e pn : length pn = length (sides c) -> length (pn_next c mi e pn) = length (sides c).
+  Proof. intros H. unfold pn_next, pn_at. now apply pn_at_length. Qed.
+
   (* the model equals the spec from every epoch boundary, for every fuel *)
-  Lemma run_eq_spec : forall n e s, at_pos s e 0 [] -> run c mi n s = spec_run c mi e n.
+  Lemma run_eq_spec : forall n e pn s, length pn = length (sides c) -> at_pos s e 0 [] pn ->
+    run c mi n s = spec_run c mi e pn n.
   Proof.
-    induction n as [|n IH]; intros e s Hpos; [reflexivity|].
+    induction n as [|n IH]; intros e pn s Hpl Hpos; [reflexivity|].
     cbn [run spec_run].
     assert (epoch s = e) as He by (destruct Hpos; auto). rewrite He.
-    destruct (epoch_step e s Hpos) as [sfin [Heq Hfin]]. rewrite Heq.
+    destruct (epoch_step e pn s Hpl Hpos) as [sfin [Heq Hfin]]. rewrite Heq.
     unfold epoch_events. destruct (epoch_hits c mi e) eqn:Hh.
     - reflexivity.
-    - rewrite (IH (e + 1) sfin (Hfin eq_refl)).
-      destruct (spec_run c mi (e + 1) n); reflexivity.
+    - rewrite (IH (e + 1) (pn_next c mi e pn) sfin (pn_next_length e pn Hpl) (Hfin eq_refl)).
+      destruct (spec_run c mi (e + 1) (pn_next c mi e pn) n); reflexivity.
   Qed.
 
-  Lemma at_pos_start e : at_pos (init_state e (upe c * e) (spe c * e)) e 0 [].
+  Lemma at_pos_start e pn : at_pos (init_state e (upe c * e) (spe c * e) pn) e 0 [] pn.
   Proof. unfold at_pos, init_state. cbn. repeat split; lia. Qed.
 
-  Theorem model_eq_spec n e :
-    run c mi n (init_state e (upe c * e) (spe c * e)) = spec_run c mi e n.
-  Proof. apply run_eq_spec, at_pos_start. Qed.
+  Theorem model_eq_spec n e pn : length pn = length (sides c) ->
+    run c mi n (init_state e (upe c * e) (spe c * e) pn) = spec_run c mi e pn n.
+  Proof. intros Hpl. apply run_eq_spec; [exact Hpl|apply at_pos_start]. Qed.
 End Main.
